@@ -294,7 +294,11 @@ def rule_damp(repo, tier):
                 continue
             st = e[1]
             for c in paths.calls_in(st):
-                if isinstance(c.func, ast.Attribute) and c.func.attr in ('clamp_', 'clip_') and _is_diag_view(c.func.value, aname, views):
+                recv_ = c.func.value if isinstance(c.func, ast.Attribute) else None
+                # x.add_(..).clamp_(..): an in-place method returns its receiver
+                while isinstance(recv_, ast.Call) and isinstance(recv_.func, ast.Attribute) and recv_.func.attr.endswith('_') and not recv_.func.attr.startswith('_'):
+                    recv_ = recv_.func.value
+                if isinstance(c.func, ast.Attribute) and c.func.attr in ('clamp_', 'clip_', 'clamp', 'clip') and recv_ is not None and _is_diag_view(recv_, aname, views):
                     args = list(c.args) + [k.value for k in c.keywords]
                     ok = any(pgkey(a, 'min') for a in args) and any(pgkey(a, 'max') for a in args)
                     if ok and not in_loop:
